@@ -527,11 +527,31 @@ class SSeq(Proxy):
 
 # ------------------------------------------------------------------ dict with symbolic keys
 class SDict(Proxy):
-    """dict: has : Array K Bool, val : Array K V, size ghost."""
-    __slots__ = ("has", "val", "size", "kun", "vwrap", "vun")
+    """dict with symbolic keys: has : Array K Bool, val : Array K V, and a precise size kept by an
+    enumeration of the key set (enum : [0,size) -> K, idx : K -> position; removal swaps with the
+    last).  wf() is the representation invariant of this *model* of dict (len == number of keys); it is
+    maintained constructively by the operations and assumed after a havoc."""
+    __slots__ = ("has", "val", "size", "kun", "vwrap", "vun", "enum", "idx")
 
-    def __init__(self, has, val, size, kun, vwrap, vun):
+    def __init__(self, has, val, size, kun, vwrap, vun, enum=None, idx=None):
         self.has, self.val, self.size, self.kun, self.vwrap, self.vun = has, val, size, kun, vwrap, vun
+        ks = has.sort().domain()
+        self.enum = enum if enum is not None else z3.K(z3.IntSort(), z3.IntVal(0) if ks == z3.IntSort() else z3.StringVal(""))
+        self.idx = idx if idx is not None else z3.K(ks, z3.IntVal(0))
+
+    def wf(self):
+        ks = self.has.sort().domain()
+        j = z3.Int("dj")
+        k = z3.Const("dk", ks)
+        return z3.And(self.size >= 0,
+                      z3.ForAll([j], z3.Implies(z3.And(0 <= j, j < self.size),
+                                                z3.And(z3.Select(self.has, z3.Select(self.enum, j)),
+                                                       z3.Select(self.idx, z3.Select(self.enum, j)) == j)),
+                                patterns=[z3.Select(self.enum, j)]),
+                      z3.ForAll([k], z3.Implies(z3.Select(self.has, k),
+                                                z3.And(0 <= z3.Select(self.idx, k), z3.Select(self.idx, k) < self.size,
+                                                       z3.Select(self.enum, z3.Select(self.idx, k)) == k)),
+                                patterns=[z3.Select(self.has, k)]))
 
     def __contains__(self, k):
         return cx().branch(z3.Select(self.has, self.kun(k)))
@@ -556,16 +576,26 @@ class SDict(Proxy):
 
     def __setitem__(self, k, v):
         kz = self.kun(k)
-        self.size = z3.simplify(z3.If(z3.Select(self.has, kz), self.size, self.size + 1))
+        if not cx().branch(z3.Select(self.has, kz)):      # new key (forks only if both are feasible)
+            self.enum = z3.Store(self.enum, self.size, kz)
+            self.idx = z3.Store(self.idx, kz, self.size)
+            self.size = z3.simplify(self.size + 1)
         self.has = z3.Store(self.has, kz, z3.BoolVal(True))
         self.val = z3.Store(self.val, kz, self.vun(v))
+
+    def _remove(self, kz):
+        last = z3.Select(self.enum, self.size - 1)
+        j = z3.Select(self.idx, kz)
+        self.enum = z3.Store(self.enum, j, last)
+        self.idx = z3.Store(self.idx, last, j)
+        self.has = z3.Store(self.has, kz, z3.BoolVal(False))
+        self.size = z3.simplify(self.size - 1)
 
     def __delitem__(self, k):
         kz = self.kun(k)
         if not cx().branch(z3.Select(self.has, kz)):
             raise KeyError(k)
-        self.has = z3.Store(self.has, kz, z3.BoolVal(False))
-        self.size = z3.simplify(self.size - 1)
+        self._remove(kz)
 
     _MISSING = object()
 
@@ -576,8 +606,7 @@ class SDict(Proxy):
                 raise KeyError(k)
             return default
         v = self.vwrap(z3.simplify(z3.Select(self.val, kz)))
-        self.has = z3.Store(self.has, kz, z3.BoolVal(False))
-        self.size = z3.simplify(self.size - 1)
+        self._remove(kz)
         return v
 
     def length(self):
